@@ -44,8 +44,10 @@ pub fn occ<const N: usize, const K: u32>(alpha: &[u8], cand: &[u8]) {
     let got = occ.get(&b[..], r, c);
     let want = count_prefix(&b, r, c);
     assert!(got == want, "C04: Occ::get differs from the count of c in bwt[0..=r]");
-    kani::cover!(want >= 2, "symbol occurs at least twice in the prefix");
-    kani::cover!(want == 0 && r + 1 == N, "symbol absent from the whole string");
+    if K <= 64 {
+        kani::cover!(want >= 2, "symbol occurs at least twice in the prefix");
+        kani::cover!(want == 0 && r + 1 == N, "symbol absent from the whole string");
+    }
     if K > 64 {
         let k = K as usize;
         let lo = r / k;
@@ -140,11 +142,11 @@ pub fn assumed_sa<const N: usize>(t: &[u8; N]) -> [usize; N] {
     sa
 }
 
-/// invert_bwt(bwt(text, sa)) == text for single-sentinel texts (N-1 symbols over {A,C,G} then '$').
+/// invert_bwt(bwt(text, sa)) == text for single-sentinel texts (N-1 symbols over {2,3,4}, then the sentinel 1).
 #[cfg(kani)]
 pub fn invert<const N: usize>() {
-    let mut text = bytes_from::<N>(b"ACG");
-    text[N - 1] = b'$';
+    let mut text = bytes_from::<N>(&[2, 3, 4]);
+    text[N - 1] = 1;
     let sa = assumed_sa(&text);
     let sav = sa.to_vec();
     let b = bwt(&text[..], &sav[..]);
@@ -160,40 +162,43 @@ pub fn invert<const N: usize>() {
 }
 
 use crate::inst;
-// Occ: small strings, all sampling rates 1..=2n are enumerated by instance (concrete K)
-inst!(c04_occ_n4_k1, 70, occ::<4, 1>(b"AC$", b"AC$"));
-inst!(c04_occ_n4_k2, 70, occ::<4, 2>(b"AC$", b"AC$"));
-inst!(c04_occ_n4_k3, 70, occ::<4, 3>(b"AC", b"AC$"));
-inst!(c04_occ_n4_k4, 70, occ::<4, 4>(b"AC", b"AC$"));
-inst!(c04_occ_n4_k5, 70, occ::<4, 5>(b"AC$", b"AC$"));
-inst!(c04_occ_n4_k8, 70, occ::<4, 8>(b"AC", b"AC$"));
-inst!(c04_occ_n6_k1, 70, occ::<6, 1>(b"ACG", b"ACG$"));
-inst!(c04_occ_n6_k2, 70, occ::<6, 2>(b"ACG", b"ACG$"));
-inst!(c04_occ_n6_k3, 70, occ::<6, 3>(b"ACG$", b"ACG$"));
-inst!(c04_occ_n6_k4, 70, occ::<6, 4>(b"ACG", b"ACG$"));
-inst!(c04_occ_n6_k5, 70, occ::<6, 5>(b"ACG", b"ACG$"));
-inst!(c04_occ_n6_k6, 70, occ::<6, 6>(b"ACG$", b"ACG$"));
-inst!(c04_occ_n6_k7, 70, occ::<6, 7>(b"ACG", b"ACG$"));
-inst!(c04_occ_n6_k12, 70, occ::<6, 12>(b"ACG", b"ACG$"));
-inst!(c04_occ_n8_k3, 70, occ::<8, 3>(b"AC", b"AC$"));
-inst!(c04_occ_n8_k16, 70, occ::<8, 16>(b"AC", b"AC$"));
-// alphabet of small byte values, no '$' slot (36 >= m)
-inst!(c04_occ_n6_k2_small, 12, occ::<6, 2>(&[1, 2, 3], &[1, 2, 3]));
+// Occ over small-valued alphabets (the table has max_symbol+1 inner Vecs; 68 of them exhaust memory, 4 do not)
+inst!(c04_occ_n4_k1, 10, occ::<4, 1>(&[1, 2, 3], &[1, 2, 3]));
+inst!(c04_occ_n4_k2, 10, occ::<4, 2>(&[1, 2, 3], &[1, 2, 3]));
+inst!(c04_occ_n4_k3, 10, occ::<4, 3>(&[1, 2, 3], &[1, 2, 3]));
+inst!(c04_occ_n4_k4, 10, occ::<4, 4>(&[1, 2, 3], &[1, 2, 3]));
+inst!(c04_occ_n4_k5, 10, occ::<4, 5>(&[1, 2, 3], &[1, 2, 3]));
+inst!(c04_occ_n4_k8, 10, occ::<4, 8>(&[1, 2, 3], &[1, 2, 3]));
+inst!(c04_occ_n6_k1, 12, occ::<6, 1>(&[1, 2, 3], &[1, 2, 3]));
+inst!(c04_occ_n6_k2, 12, occ::<6, 2>(&[1, 2, 3], &[1, 2, 3]));
+inst!(c04_occ_n6_k3, 12, occ::<6, 3>(&[1, 2, 3], &[1, 2, 3]));
+inst!(c04_occ_n6_k4, 12, occ::<6, 4>(&[1, 2, 3], &[1, 2, 3]));
+inst!(c04_occ_n6_k5, 12, occ::<6, 5>(&[1, 2, 3], &[1, 2, 3]));
+inst!(c04_occ_n6_k6, 12, occ::<6, 6>(&[1, 2, 3], &[1, 2, 3]));
+inst!(c04_occ_n6_k7, 12, occ::<6, 7>(&[1, 2, 3], &[1, 2, 3]));
+inst!(c04_occ_n6_k12, 12, occ::<6, 12>(&[1, 2, 3], &[1, 2, 3]));
+inst!(c04_occ_n8_k1, 14, occ::<8, 1>(&[1, 2, 3], &[1, 2, 3]));
+inst!(c04_occ_n8_k3, 14, occ::<8, 3>(&[1, 2, 3], &[1, 2, 3]));
+inst!(c04_occ_n8_k5, 14, occ::<8, 5>(&[1, 2, 3], &[1, 2, 3]));
+inst!(c04_occ_n8_k8, 14, occ::<8, 8>(&[1, 2, 3], &[1, 2, 3]));
+inst!(c04_occ_n8_k16, 14, occ::<8, 16>(&[1, 2, 3], &[1, 2, 3]));
+inst!(c04_occ_dollar_added_n4_k2, 42, occ::<4, 2>(&[35, 37], &[35, 36, 37]));
+inst!(c04_occ_dollar_member_n4_k2, 42, occ::<4, 2>(&[35, 36, 37], &[35, 36, 37]));
 // k > 64: look-ahead checkpoint branch
-inst!(c04_occ_n66_k65, 135, occ::<66, 65>(b"AC", b"AC$"));
-inst!(c04_occ_n131_k65, 135, occ::<131, 65>(b"AC", b"AC$"));
-inst!(c04_occ_n130_k66, 135, occ::<130, 66>(b"AC", b"AC$"));
-inst!(c04_occ_n131_k129, 135, occ::<131, 129>(b"AC", b"AC$"));
-inst!(c04_occ_n70_k140, 135, occ::<70, 140>(b"AC", b"AC$"));
+inst!(c04_occ_n66_k65, 72, occ::<66, 65>(&[1, 2], &[1, 2]));
+inst!(c04_occ_n131_k65, 137, occ::<131, 65>(&[1, 2], &[1, 2]));
+inst!(c04_occ_n130_k66, 136, occ::<130, 66>(&[1, 2], &[1, 2]));
+inst!(c04_occ_n131_k129, 137, occ::<131, 129>(&[1, 2], &[1, 2]));
+inst!(c04_occ_n70_k140, 76, occ::<70, 140>(&[1, 2], &[1, 2]));
 inst!(c04_less_n5_ac, 72, less_table::<5>(b"AC$", b"AC$", b'C'));
 inst!(c04_less_n6_acg, 76, less_table::<6>(b"ACG", b"ACG$", b'G'));
 inst!(c04_less_n6_small, 12, less_table::<6>(&[0, 1, 3], &[0, 1, 3], 3));
 inst!(c04_bwt_n1, 8, bwt_def::<1>());
 inst!(c04_bwt_n4, 8, bwt_def::<4>());
 inst!(c04_bwt_n6, 10, bwt_def::<6>());
-inst!(c04_invert_n2, 74, invert::<2>());
-inst!(c04_invert_n4, 74, invert::<4>());
-inst!(c04_invert_n5, 74, invert::<5>());
+inst!(c04_invert_n2, 12, invert::<2>());
+inst!(c04_invert_n4, 12, invert::<4>());
+inst!(c04_invert_n5, 12, invert::<5>());
 
 #[cfg(kani)]
 pub fn probe_alpha_collect() {
